@@ -111,6 +111,12 @@ CONTEXTS = {
     "array-size": (True, lambda e: _m(decl_extra="int arr[%s + 1];" % e)),
     "range-bound": (True, lambda e: _m(decl_extra="int[0, %s + 1] rb;" % e)),
     "instantiation-arg": (True, lambda e: _m(params="const int p", system="P1 = P(%s);\nsystem P1;" % e)),
+    "partial-instantiation-arg-last": (True, lambda e: _m(params="const int[0,1] k, int &r, const int p", system="Q(const int[0,1] i) = P(i, g, %s);\nsystem Q;" % e)),
+    "partial-instantiation-arg-middle": (True, lambda e: _m(params="const int[0,1] k, const int p, int &r", system="Q(const int[0,1] i) = P(i, %s, g);\nsystem Q;" % e)),
+    "partial-instantiation-two-free-arg-last": (True, lambda e: _m(params="const int[0,1] k, const int[0,1] k2, const int p",
+                                                                    system="Q(const int[0,1] i, const int[0,1] j) = P(i, j, %s);\nsystem Q;" % e)),
+    "partial-instantiation-chain-arg": (True, lambda e: _m(params="const int[0,1] k, const int p, const int p2",
+                                                            system="Q(const int[0,1] i, const int y) = P(i, y, %s);\nQ2(const int[0,1] i2) = Q(i2, 3);\nsystem Q2;" % e)),
     "forall-body": (False, lambda e: _m(edge_labels=[("guard", "forall (q : int[0,1]) %s >= q" % e)])),
     "exists-body": (False, lambda e: _m(edge_labels=[("guard", "exists (q : int[0,1]) %s == q" % e)])),
     "sum-body": (False, lambda e: _m(edge_labels=[("guard", "(sum (q : int[0,1]) %s) >= 0" % e)])),
@@ -222,6 +228,16 @@ def run(rep, tier, seed):
         for t in ("P1.tr()", "P1.tl"):
             qitems.append((qn + "/process-qualified", t, False, qb(t)))
             qmodels.append(tlm)
+    # ... and through a member of a process set (template with a free parameter on the system line)
+    psm = xmlgen.simple_model(decl=BASE_DECL.replace("chan c;", "broadcast chan c;").replace("chan ca[4];", "broadcast chan ca[4];") + FUNCS,
+                              tdecl=TLOCAL, params="const int[0,1] pid", system="system P;")
+    for qn, qb in (("query-predicate", QUERY_CONTEXTS["query-predicate"]), ("query-AG", QUERY_CONTEXTS["query-AG"])):
+        for w in ("P(0).tw()", "P(1).tw2()", "P(0).twg()", "(forall (qi : int[0,1]) P(qi).tw() > 0 ? 1 : 0)", "(P(0).tl = 1)"):
+            qitems.append((qn + "/process-set-member", w, True, qb(w)))
+            qmodels.append(psm)
+        for t in ("P(0).tr()", "P(1).tl"):
+            qitems.append((qn + "/process-set-member", t, False, qb(t)))
+            qmodels.append(psm)
     qres = accept.with_queries([(mm, [q]) for mm, (_, _, _, q) in zip(qmodels, qitems)], tag="c11q")
     for (qn, form, is_write, q), r in zip(qitems, qres):
         if r["crash"] is not None:
